@@ -7,7 +7,8 @@ package main
 // panic that kills the server is the outcome "crash" of the attempt whose flushed begin marker has
 // no end, not a dead driver. The parent creates the accounts of each case through an ordinary root
 // connection, makes the attempt (go-sql-driver for well-formed logins, a raw socket speaking just
-// the handshake for malformed mysql_native_password responses) and records what came back.
+// the handshake for hand-made auth responses: malformed ones, the valid scramble on a chosen salt, empty
+// ones) and records what came back.
 
 import (
 	"bytes"
@@ -31,6 +32,7 @@ import (
 	"os"
 	"os/exec"
 	"strings"
+	"sync/atomic"
 	"time"
 
 	gomysql "github.com/go-sql-driver/mysql"
@@ -360,10 +362,24 @@ func junk(rng *rand.Rand, n int) []byte {
 	return b
 }
 
-// response builds the n bytes the raw client answers with.
+// response builds the bytes the raw client answers with (the specification only knows their class).
 func response(p Proof, salt []byte, rng *rand.Rand) []byte {
+	s := nativeScramble(salt, "pw1")
+	switch p.K {
+	case "exact": // the valid proof itself (the salt was chosen so that it starts / ends with 0x00)
+		return s
+	case "padded": // the valid proof with n-20 NUL bytes after / before it
+		pad := make([]byte, p.N-20)
+		if p.Base == "lead" {
+			return append(pad, s...)
+		}
+		return append(s, pad...)
+	case "allnul":
+		return make([]byte, p.N)
+	case "empty":
+		return []byte{}
+	}
 	if p.Base == "right" {
-		s := nativeScramble(salt, "pw1")
 		if p.N <= 20 {
 			return s[:p.N]
 		}
@@ -372,18 +388,32 @@ func response(p Proof, salt []byte, rng *rand.Rand) []byte {
 	return junk(rng, p.N)
 }
 
-// rawAttempt speaks the connection phase by hand: HandshakeV10 <- , HandshakeResponse41 -> with the
-// chosen bytes as mysql_native_password auth response, then reads OK / ERR / auth switch.
-func rawAttempt(addr string, att Attempt, rng *rand.Rand) AuthOut {
+// shapeOK: does the handshake's salt give the scramble the shape an "exact" proof asks for?
+func shapeOK(p Proof, salt []byte) bool {
+	if p.K != "exact" {
+		return true
+	}
+	s := nativeScramble(salt, "pw1")
+	switch p.Base {
+	case "end0":
+		return s[19] == 0
+	case "start0":
+		return s[0] == 0
+	}
+	return false
+}
+
+// greet connects and reads the HandshakeV10 packet; returns the 20-byte salt.
+func greet(addr string) (net.Conn, []byte, error) {
 	c, err := net.DialTimeout("tcp", addr, 5*time.Second)
 	if err != nil {
-		return AuthOut{O: "dropped", Note: "dial: " + err.Error()}
+		return nil, nil, fmt.Errorf("dial: %w", err)
 	}
-	defer c.Close()
 	c.SetDeadline(time.Now().Add(8 * time.Second))
 	hs, _, err := readPacket(c)
 	if err != nil || len(hs) < 40 || hs[0] != 10 {
-		return AuthOut{O: "error", Note: fmt.Sprintf("handshake: %v", err)}
+		c.Close()
+		return nil, nil, fmt.Errorf("handshake: %v", err)
 	}
 	i := 1 + bytes.IndexByte(hs[1:], 0) + 1 // protocol version, server version NUL
 	i += 4                                  // connection id
@@ -396,11 +426,113 @@ func rawAttempt(addr string, att Attempt, rng *rand.Rand) AuthOut {
 		n2 = 13
 	}
 	salt = append(salt, hs[i:i+n2]...)
-	salt = salt[:20]
-	const caps = 0x1 | 0x200 | 0x8000 | 0x2000 | 0x80000 // LONG_PASSWORD, PROTOCOL_41, SECURE_CONNECTION, TRANSACTIONS, PLUGIN_AUTH
+	return c, salt[:20], nil
+}
+
+const maxSaltTries = 20000 // (255/256)^20000 ~ 1e-34
+const saltWorkers = 4
+
+// rawAttempt speaks the connection phase by hand: HandshakeV10 <- , HandshakeResponse41 -> with the
+// chosen bytes as auth response, then reads OK / ERR / auth switch. Without TLS it announces
+// mysql_native_password; with TLS (SSLRequest, TLS handshake first) caching_sha2_password. For an
+// "exact" proof it reconnects until the server's salt gives the scramble the requested shape (the
+// server draws the salt; about 256 connections).
+func rawAttempt(addr string, att Attempt, rng *rand.Rand) AuthOut {
+	var c net.Conn
+	var salt []byte
+	tries := int64(1)
+	if att.Proof.K != "exact" {
+		var err error
+		if c, salt, err = greet(addr); err != nil {
+			if strings.HasPrefix(err.Error(), "dial") {
+				return AuthOut{O: "dropped", Note: err.Error()}
+			}
+			return AuthOut{O: "error", Note: err.Error()}
+		}
+	} else {
+		// a few connections at a time; the first handshake with a suitable salt is the one answered
+		type hit struct {
+			c    net.Conn
+			salt []byte
+			err  error
+		}
+		hits := make(chan hit)
+		done := make(chan struct{})
+		var n int64
+		for w := 0; w < saltWorkers; w++ {
+			go func() {
+				for {
+					select {
+					case <-done:
+						return
+					default:
+					}
+					if atomic.AddInt64(&n, 1) > maxSaltTries {
+						select {
+						case hits <- hit{err: fmt.Errorf("no salt of the requested shape in %d handshakes", maxSaltTries)}:
+						case <-done:
+						}
+						return
+					}
+					hc, hsalt, err := greet(addr)
+					if err == nil && !shapeOK(att.Proof, hsalt) {
+						hc.Close()
+						continue
+					}
+					select {
+					case hits <- hit{hc, hsalt, err}:
+					case <-done:
+						if hc != nil {
+							hc.Close()
+						}
+					}
+					return
+				}
+			}()
+		}
+		h := <-hits
+		close(done)
+		tries = atomic.LoadInt64(&n)
+		if h.err != nil {
+			return AuthOut{O: "error", Note: h.err.Error()}
+		}
+		c, salt = h.c, h.salt
+	}
+	defer func() { c.Close() }()
+	c.SetDeadline(time.Now().Add(8 * time.Second))
+	o := rawExchange(c, salt, att, rng)
+	if att.Proof.K == "exact" {
+		o.Note = fmt.Sprintf("salt %x after about %d handshakes; %s", salt, tries, o.Note)
+	}
+	return o
+}
+
+func rawExchange(c net.Conn, salt []byte, att Attempt, rng *rand.Rand) AuthOut {
+	caps := uint32(0x1 | 0x200 | 0x8000 | 0x2000 | 0x80000) // LONG_PASSWORD, PROTOCOL_41, SECURE_CONNECTION, TRANSACTIONS, PLUGIN_AUTH
+	plugin := "mysql_native_password"
+	seq := byte(1)
+	if att.TLS {
+		caps |= 0x800 // CLIENT_SSL
+		plugin = "caching_sha2_password"
+		var r bytes.Buffer
+		binary.Write(&r, binary.LittleEndian, caps)
+		binary.Write(&r, binary.LittleEndian, uint32(1<<24-1))
+		r.WriteByte(33)
+		r.Write(make([]byte, 23))
+		if err := writePacket(c, seq, r.Bytes()); err != nil {
+			return AuthOut{O: "dropped", Note: "write: " + err.Error()}
+		}
+		seq++
+		tc := tls.Client(c, &tls.Config{InsecureSkipVerify: true})
+		tc.SetDeadline(time.Now().Add(8 * time.Second))
+		if err := tc.Handshake(); err != nil {
+			return AuthOut{O: "error", Note: "tls: " + err.Error()}
+		}
+		c = tc
+	}
 	resp := response(att.Proof, salt, rng)
 	var p bytes.Buffer
-	binary.Write(&p, binary.LittleEndian, uint32(caps))
+	binary.Write(&p, binary.LittleEndian, caps)
 	binary.Write(&p, binary.LittleEndian, uint32(1<<24-1))
 	p.WriteByte(33)
 	p.Write(make([]byte, 23))
@@ -408,14 +540,13 @@ func rawAttempt(addr string, att Attempt, rng *rand.Rand) AuthOut {
 	p.WriteByte(0)
 	p.WriteByte(byte(len(resp)))
 	p.Write(resp)
-	p.WriteString("mysql_native_password")
+	p.WriteString(plugin)
 	p.WriteByte(0)
-	if err := writePacket(c, 1, p.Bytes()); err != nil {
+	if err := writePacket(c, seq, p.Bytes()); err != nil {
 		return AuthOut{O: "dropped", Note: "write: " + err.Error()}
 	}
-	seq := byte(3)
-	for round := 0; round < 2; round++ {
-		r, _, err := readPacket(c)
+	for round := 0; round < 3; round++ {
+		r, rseq, err := readPacket(c)
 		if err != nil {
 			if ne, ok := err.(net.Error); ok && ne.Timeout() {
 				return AuthOut{O: "timeout", Note: err.Error()}
@@ -434,23 +565,28 @@ func rawAttempt(addr string, att Attempt, rng *rand.Rand) AuthOut {
 				code = int(r[1]) | int(r[2])<<8
 			}
 			return AuthOut{O: "reject", Code: code, Note: string(r[3:])}
+		case 0x01: // AuthMoreData: 0x03 = fast auth succeeded (OK follows), 0x04 = full authentication wanted
+			if len(r) >= 2 && r[1] == 0x03 {
+				continue
+			}
+			return AuthOut{O: "switch", Note: fmt.Sprintf("more data wanted: %x", r)}
 		case 0xfe:
 			j := bytes.IndexByte(r[1:], 0)
 			if j < 0 {
 				return AuthOut{O: "error", Note: "bad auth switch"}
 			}
-			plugin := string(r[1 : 1+j])
-			if plugin != "mysql_native_password" || round == 1 {
-				return AuthOut{O: "switch", Note: plugin}
+			to := string(r[1 : 1+j])
+			if (to != "mysql_native_password" && to != "caching_sha2_password") || round >= 1 {
+				return AuthOut{O: "switch", Note: to}
 			}
 			nsalt := r[1+j+1:]
 			if len(nsalt) > 20 {
 				nsalt = nsalt[:20]
 			}
-			if err := writePacket(c, seq, response(att.Proof, nsalt, rng)); err != nil {
+			// (the same kind of bytes under the new salt; an "exact" proof keeps its validity, not its shape)
+			if err := writePacket(c, rseq+1, response(att.Proof, nsalt, rng)); err != nil {
 				return AuthOut{O: "dropped", Note: "write: " + err.Error()}
 			}
-			seq += 2
 		default:
 			return AuthOut{O: "error", Note: fmt.Sprintf("unexpected packet 0x%02x", r[0])}
 		}
